@@ -77,8 +77,13 @@ def run_case(case, res):
     failures = []
     m = world.Machine()
     wp = dict(reorg_limit=limit, activation=ACT, prefetch=case.get('prefetch', 100))
+    coin_saved = None
     try:
         w = world.World(m, **wp)
+        if case.get('coin_default') is not None:
+            # the configured limit differs from the coin's built-in default
+            coin_saved = (w.env.coin, w.env.coin.REORG_LIMIT)
+            w.env.coin.REORG_LIMIT = case['coin_default']
         w.daemon.set_chain(blocks[:case['h0'] + 1])
         w.start_sync()
         k = case.get('k')
@@ -171,6 +176,8 @@ def run_case(case, res):
                 finally:
                     w2.close(destroy=False)
     finally:
+        if coin_saved:
+            coin_saved[0].REORG_LIMIT = coin_saved[1]
         try:
             w.close(destroy=False)
         except Exception:       # noqa
@@ -212,6 +219,13 @@ def cases_for(tier):
             for stop_at in range(3, 330, 13 if q else 4):
                 cases.append(dict(limit=limit, depth=depth, kind='natural', restart=False,
                                   prefetch=100 if stop_at % 2 else 3, h0=H, k=0, stop_at=stop_at))
+    # the configured limit above / below the coin's built-in default
+    for coin_default in (2, 50):
+        for depth in (3, 4, 5):
+            for restart in (True, False):
+                for kind in ('natural', 'forced'):
+                    cases.append(dict(limit=5, depth=depth, kind=kind, restart=restart, h0=H, k=0,
+                                      coin_default=coin_default))
     # a chain higher than 255 blocks (undo keys differ above their low byte): synced to 250,
     # then block by block, restarted, reorganised
     for limit, depth in ((5, 5), (3, 2)):
